@@ -43,3 +43,37 @@ func VerifReadProtocolHandshake(rw MsgReader) (id discover.NodeID, version uint6
 	}
 	return hs.ID, hs.Version, nil
 }
+
+// ---- Peer.run over an in-memory message pipe (C17 part "peer") ----------------------------------------
+
+type verifTransport struct{ *MsgPipeRW }
+
+func (t verifTransport) doEncHandshake(prv *ecdsa.PrivateKey, dialDest *discover.Node) (discover.NodeID, error) {
+	return discover.NodeID{}, nil
+}
+func (t verifTransport) doProtoHandshake(our *protoHandshake) (*protoHandshake, error) { return nil, nil }
+func (t verifTransport) close(err error)                                               { t.MsgPipeRW.Close() }
+
+// VerifRunPeer runs Peer.run for a peer whose connection is one end of a MsgPipe and which speaks the
+// given protocols; it returns the remote end and a channel that receives run's error when it returns.
+func VerifRunPeer(protos []Protocol) (remote *MsgPipeRW, done <-chan error) {
+	local, rem := MsgPipe()
+	c := &conn{transport: verifTransport{local}}
+	for _, p := range protos {
+		c.caps = append(c.caps, p.cap())
+	}
+	peer := newPeer(c, protos)
+	errc := make(chan error, 1)
+	go func() {
+		_, err := peer.run()
+		errc <- err
+	}()
+	return rem, errc
+}
+
+// VerifDiscMsg is the code of the devp2p disconnect message; VerifBaseProtocolLength the offset of
+// the first sub-protocol's message codes.
+const (
+	VerifDiscMsg            = discMsg
+	VerifBaseProtocolLength = baseProtocolLength
+)
